@@ -90,12 +90,14 @@ def plan(tier):
                 "required_counters": {"oracle": 5000, "walk_swaps": 300, "swaps_opt": 100, "swaps_evolve": 50,
                                       "ofs_runs_with_swap": 80, "ofs_runs_with_swap:ofs_s": 10,
                                       "ofs_runs_with_swap:ofs_ds": 10, "ofs_runs_with_swap:ofs_d": 1,
-                                      "jw_selfcheck": 200, "sweep_monitor": 150, "try_swap_site_calls": 2000}}
+                                      "jw_selfcheck": 200, "sweep_monitor": 150, "try_swap_site_calls": 2000,
+                                      "ground_energy_reached": 150}}
     return {"ncases": 8000, "min_nontrivial": 3000, "case_time_limit": 600, "required_classes": classes + ["norb:4"],
             "required_counters": {"oracle": 60000, "walk_swaps": 4000, "swaps_opt": 1500, "swaps_evolve": 800,
                                   "ofs_runs_with_swap": 1200, "ofs_runs_with_swap:ofs_s": 150,
                                   "ofs_runs_with_swap:ofs_ds": 150, "ofs_runs_with_swap:ofs_d": 20,
-                                  "jw_selfcheck": 3000, "sweep_monitor": 2000, "try_swap_site_calls": 30000}}
+                                  "jw_selfcheck": 3000, "sweep_monitor": 2000, "try_swap_site_calls": 30000,
+                                  "ground_energy_reached": 2000}}
 
 
 # ------------------------------------------------------------------------------------ swap counter (monitor)
@@ -910,7 +912,7 @@ def case_ofs_opt(ctx):
             ctx.count("optimiser_stuck_with_ofs_only_after_truncating_sweeps")
         else:
             ctx.count("oracle")
-            ctx.close(energies.min(), e0, 1e-6, f"{sig}|lowest-energy-differs-from-exact-although-it-is-reached-with-ofs-off",
+            ctx.close(energies.min(), e0, 1e-6, f"{sig}|lowest-energy-differs-from-exact|reached-with-ofs-off",
                       scale=escale, swaps=nsw)
     else:
         ctx.count("oracle")
